@@ -1,5 +1,670 @@
 package main
 
+// Generic replay of a solver model on the real code, for functions whose parameters and results are plain data
+// (integers, booleans, floats, slices of integers/floats, maps from int to int/float). The obligation's query is
+// solved again with finiteness constraints (short slices, map keys in a window), the model is turned into a Go
+// test that calls the real function (go test -overlay, nothing is written into the repository), and the outcome is
+// compared with what the model predicts: for a postcondition the results the model says the code returns (which
+// violate the clause), for a safety obligation a panic. Only a matching outcome counts as reproduced.
+
+import (
+	"bytes"
+	"encoding/json"
+	"fmt"
+	"go/types"
+	"math"
+	"math/big"
+	"os"
+	"os/exec"
+	"path/filepath"
+	"regexp"
+	"strconv"
+	"strings"
+)
+
+const (
+	rpMaxSlice = 8
+	rpKeyLo    = -4
+	rpKeyHi    = 40
+)
+
+type rpKind int
+
+const (
+	rpInt rpKind = iota
+	rpBool
+	rpFloat
+	rpSliceInt
+	rpSliceFloat
+	rpMapIntInt
+	rpMapIntFloat
+	rpString // strings are not extractable from the model: the empty string is passed (a mismatch shows as "not confirmed")
+	rpUnsupported
+)
+
+func rpKindOf(t types.Type) rpKind {
+	switch u := t.Underlying().(type) {
+	case *types.Basic:
+		switch {
+		case u.Info()&types.IsBoolean != 0:
+			return rpBool
+		case u.Info()&types.IsInteger != 0:
+			return rpInt
+		case u.Info()&types.IsFloat != 0:
+			return rpFloat
+		case u.Info()&types.IsString != 0:
+			return rpString
+		}
+	case *types.Slice:
+		switch rpKindOf(u.Elem()) {
+		case rpInt:
+			return rpSliceInt
+		case rpFloat:
+			return rpSliceFloat
+		}
+	case *types.Map:
+		if rpKindOf(u.Key()) == rpInt {
+			switch rpKindOf(u.Elem()) {
+			case rpInt:
+				return rpMapIntInt
+			case rpFloat:
+				return rpMapIntFloat
+			}
+		}
+	}
+	return rpUnsupported
+}
+
+type rpQuery struct {
+	terms []string
+	vals  map[string]string
+}
+
+func (q *rpQuery) add(t string) { q.terms = append(q.terms, t) }
+
+func declared(text, name string) bool {
+	return strings.Contains(text, "(declare-const "+name+" ") || strings.Contains(text, "(define-fun "+name+" ")
+}
+
 func tryReplay(root string, p *Program, o *Obligation, r *SolveResult, rf *ReplayFile) {
-	rf.Note = "no replay generator for this function shape yet"
+	rc := o.rp
+	if rc == nil || rc.fn == nil {
+		rf.Note = "no replay: obligation carries no function context"
+		return
+	}
+	fn := rc.fn
+	if fn.Parent() != nil || fn.Signature.Recv() != nil || fn.Pkg == nil || fn.Origin() != nil {
+		rf.Note = "no generic replay: only package-level, non-generic functions over plain data are replayed (use a hand-written recipe)"
+		return
+	}
+	isPost := o.Class == "post"
+	isSafe := strings.HasPrefix(o.Class, "safe.") || o.Class == "nopanic"
+	if !isPost && !isSafe {
+		rf.Note = "no generic replay for obligation class " + o.Class + " (only post and safe.* are replayed)"
+		return
+	}
+	for _, pv := range rc.params {
+		if rpKindOf(pv.T) == rpUnsupported {
+			rf.Note = "no generic replay: parameter type " + pv.T.String() + " is not plain data"
+			return
+		}
+	}
+	if isPost {
+		// the comparison below observes parameters and results only: the clause must not speak about anything else
+		for _, w := range []string{"fresh(", "ref(", "arrayOf(", "cap(", "W", "addrof("} {
+			if containsWord(o.Clause, w) {
+				rf.Note = "no generic replay: the clause mentions " + strings.TrimSuffix(w, "(") + ", which a test cannot observe"
+				return
+			}
+		}
+		for g := range currentGhostNames {
+			if containsWord(o.Clause, g) {
+				rf.Note = "no generic replay: the clause mentions ghost state (" + g + ")"
+				return
+			}
+		}
+	}
+	sig := fn.Signature
+	for i := 0; i < sig.Results().Len(); i++ {
+		k := rpKindOf(sig.Results().At(i).Type())
+		if k == rpUnsupported || k == rpMapIntInt || k == rpMapIntFloat || k == rpString {
+			rf.Note = "no generic replay: result type " + sig.Results().At(i).Type().String() + " is not replayable"
+			return
+		}
+	}
+	base := o.smt()
+	if i := strings.LastIndex(base, "(check-sat)"); i >= 0 {
+		base = base[:i]
+	}
+	var extra []string
+	q := &rpQuery{}
+	elemInit := func(t types.Type, path string) string {
+		n := rc.init[elemComp(t, path)]
+		if n == "" || !declared(base, n) {
+			return ""
+		}
+		return n
+	}
+	mapInit := func(mt types.Type, part string) string {
+		n := rc.init[mapComp(mt, part)]
+		if n == "" || !declared(base, n) {
+			return ""
+		}
+		return n
+	}
+	// finiteness constraints and the terms to read back
+	for _, pv := range rc.params {
+		switch rpKindOf(pv.T) {
+		case rpInt, rpBool:
+			q.add(pv.S[0])
+		case rpFloat:
+			q.add(pv.S[0])
+			q.add(pv.S[1])
+		case rpSliceInt, rpSliceFloat:
+			et := pv.T.Underlying().(*types.Slice).Elem()
+			extra = append(extra, fmt.Sprintf("(assert (and (<= 0 %s) (<= %s %d)))", pv.S[1], pv.S[1], rpMaxSlice))
+			q.add(pv.S[0])
+			q.add(pv.S[1])
+			for i := 0; i < rpMaxSlice; i++ {
+				for _, sd := range slotsOf(et) {
+					if n := elemInit(et, sd.Path); n != "" {
+						q.add(fmt.Sprintf("(select (select %s %s) %d)", n, pv.S[0], i))
+					}
+				}
+			}
+		case rpMapIntInt, rpMapIntFloat:
+			mt := pv.T
+			q.add(pv.S[0])
+			dom := mapInit(mt, "dom")
+			if dom != "" {
+				extra = append(extra, fmt.Sprintf("(assert (forall ((k!rp Int)) (=> (select (select %s %s) k!rp) (and (<= %d k!rp) (<= k!rp %d)))))", dom, pv.S[0], rpKeyLo, rpKeyHi))
+				for k := rpKeyLo; k <= rpKeyHi; k++ {
+					q.add(fmt.Sprintf("(select (select %s %s) %s)", dom, pv.S[0], smtInt(k)))
+				}
+			}
+			for _, sd := range slotsOf(mt.Underlying().(*types.Map).Elem()) {
+				if n := mapInit(mt, "val"+sd.Path); n != "" {
+					for k := rpKeyLo; k <= rpKeyHi; k++ {
+						q.add(fmt.Sprintf("(select (select %s %s) %s)", n, pv.S[0], smtInt(k)))
+					}
+				}
+			}
+			if ln := mapInit(mt, "len"); ln != "" && dom != "" {
+				// the model's length must be the number of keys: state it for the window (a sum of 0/1 terms)
+				var parts []string
+				for k := rpKeyLo; k <= rpKeyHi; k++ {
+					parts = append(parts, fmt.Sprintf("(ite (select (select %s %s) %s) 1 0)", dom, pv.S[0], smtInt(k)))
+				}
+				extra = append(extra, fmt.Sprintf("(assert (= (select %s %s) (+ %s)))", ln, pv.S[0], strings.Join(parts, " ")))
+			}
+		}
+	}
+	if isPost {
+		for _, rv := range rc.results {
+			switch rpKindOf(rv.T) {
+			case rpInt, rpBool:
+				q.add(rv.S[0])
+			case rpFloat:
+				q.add(rv.S[0])
+				q.add(rv.S[1])
+			case rpSliceInt, rpSliceFloat:
+				et := rv.T.Underlying().(*types.Slice).Elem()
+				q.add(rv.S[0])
+				q.add(rv.S[1])
+				extra = append(extra, fmt.Sprintf("(assert (<= %s %d))", rv.S[1], 4*rpMaxSlice))
+				for i := 0; i < 4*rpMaxSlice; i++ {
+					for _, sd := range slotsOf(et) {
+						if term := rc.exitE[elemComp(et, sd.Path)]; term != "" {
+							q.add(fmt.Sprintf("(select (select %s %s) %d)", term, rv.S[0], i))
+						} else if n := elemInit(et, sd.Path); n != "" {
+							q.add(fmt.Sprintf("(select (select %s %s) %d)", n, rv.S[0], i))
+						}
+					}
+				}
+			}
+		}
+	}
+	text := base + strings.Join(extra, "\n") + "\n(check-sat)\n(get-value (" + strings.Join(q.terms, "\n ") + "))\n"
+	work := filepath.Join(root, ".work", rf.Property, "replay", "gen")
+	_ = os.MkdirAll(work, 0755)
+	stem := sanitize(o.Name)
+	if len(stem) > 120 {
+		stem = stem[:120] + fmt.Sprintf("_%x", hashString(o.Name))
+	}
+	qf := filepath.Join(work, stem+".smt2")
+	_ = os.WriteFile(qf, []byte(text), 0644)
+	out, _ := exec.Command("z3-new", "-T:30", qf).CombinedOutput()
+	first := strings.TrimSpace(strings.SplitN(string(out), "\n", 2)[0])
+	if first != "sat" {
+		rf.Note = "generic replay: the query with finite inputs (slices <= " + strconv.Itoa(rpMaxSlice) + ", map keys in " + strconv.Itoa(rpKeyLo) + ".." + strconv.Itoa(rpKeyHi) + ") is " + first + "; no concrete input extracted"
+		return
+	}
+	vals := parseValueList(string(out), q.terms)
+	if vals == nil {
+		rf.Note = "generic replay: could not parse the model"
+		return
+	}
+	q.vals = vals
+	// build the Go test
+	var args []string
+	var show []string
+	for i, pv := range rc.params {
+		lit, ok := rpLiteral(q, pv, rc, base, false)
+		if !ok {
+			rf.Note = "generic replay: cannot build a Go value for parameter " + rc.names[i]
+			return
+		}
+		args = append(args, lit)
+		show = append(show, rc.names[i]+" = "+lit)
+	}
+	pkgDir := strings.TrimPrefix(fn.Pkg.Pkg.Path(), repoModule+"/")
+	testName := "TestGovcReplay"
+	var b strings.Builder
+	fmt.Fprintf(&b, "package %s\n\nimport (\n\t\"fmt\"\n\t\"math\"\n\t\"testing\"\n)\n\nvar _ = math.NaN\n\n", fn.Pkg.Pkg.Name())
+	fmt.Fprintf(&b, "func %s(t *testing.T) {\n\tdefer func() {\n\t\tif r := recover(); r != nil {\n\t\t\tfmt.Printf(\"REPLAY-PANIC %%v\\n\", r)\n\t\t}\n\t}()\n", testName)
+	nres := sig.Results().Len()
+	var lhs []string
+	for i := 0; i < nres; i++ {
+		lhs = append(lhs, fmt.Sprintf("r%d", i))
+	}
+	call := fn.Name() + "(" + strings.Join(args, ", ") + ")"
+	if nres > 0 {
+		fmt.Fprintf(&b, "\t%s := %s\n", strings.Join(lhs, ", "), call)
+		for i := 0; i < nres; i++ {
+			switch rpKindOf(sig.Results().At(i).Type()) {
+			case rpFloat:
+				fmt.Fprintf(&b, "\tfmt.Printf(\"REPLAY-RESULT %d %%x\\n\", math.Float64bits(float64(r%d)))\n", i, i)
+			case rpSliceFloat:
+				fmt.Fprintf(&b, "\tfmt.Printf(\"REPLAY-RESULT %d len=%%d\", len(r%d))\n\tfor _, x := range r%d {\n\t\tfmt.Printf(\" %%x\", math.Float64bits(float64(x)))\n\t}\n\tfmt.Println()\n", i, i, i)
+			case rpSliceInt:
+				fmt.Fprintf(&b, "\tfmt.Printf(\"REPLAY-RESULT %d len=%%d\", len(r%d))\n\tfor _, x := range r%d {\n\t\tfmt.Printf(\" %%d\", x)\n\t}\n\tfmt.Println()\n", i, i, i)
+			default:
+				fmt.Fprintf(&b, "\tfmt.Printf(\"REPLAY-RESULT %d %%v\\n\", r%d)\n", i, i)
+			}
+		}
+	} else {
+		fmt.Fprintf(&b, "\t%s\n", call)
+	}
+	fmt.Fprintf(&b, "\tfmt.Println(\"REPLAY-RETURNED\")\n}\n")
+	tf := filepath.Join(work, stem+"_test.go")
+	_ = os.WriteFile(tf, []byte(b.String()), 0644)
+	ov, _ := json.Marshal(map[string]interface{}{"Replace": map[string]string{filepath.Join("/repo", pkgDir, "zz_govc_replay_test.go"): tf}})
+	ovf := filepath.Join(work, stem+"_overlay.json")
+	_ = os.WriteFile(ovf, ov, 0644)
+	cmd := exec.Command("go", "test", "-v", "-overlay", ovf, "-vet=off", "-count=1", "-timeout", "60s", "-run", "^"+testName+"$", "./"+pkgDir+"/")
+	cmd.Dir = "/repo"
+	cmd.Env = append(os.Environ(), "GOFLAGS=-mod=mod", "GOPROXY=off", "GOSUMDB=off", "GOTOOLCHAIN=local", "CGO_ENABLED=0")
+	var buf bytes.Buffer
+	cmd.Stdout, cmd.Stderr = &buf, &buf
+	_ = cmd.Run()
+	var keep []string
+	for _, l := range strings.Split(buf.String(), "\n") {
+		if strings.HasPrefix(l, "REPLAY-") || strings.HasPrefix(l, "panic") || strings.Contains(l, "[build failed]") || strings.HasPrefix(l, "#") {
+			keep = append(keep, l)
+		}
+	}
+	rf.ReplayTest = tf
+	rf.ReplayCmd = "cd /repo && go test -v -overlay " + ovf + " -vet=off -count=1 -run '^" + testName + "$' ./" + pkgDir + "/"
+	rf.Transcript = "input: " + strings.Join(show, "; ") + "\n" + strings.Join(keep, "\n")
+	panicked := strings.Contains(buf.String(), "REPLAY-PANIC")
+	returned := strings.Contains(buf.String(), "REPLAY-RETURNED")
+	switch {
+	case isSafe:
+		rf.Reproduced = panicked
+		if !panicked {
+			rf.Note = "generic replay: the real function did not panic on the model's input (spurious or environment-dependent)"
+		}
+	case isPost && returned:
+		ok := true
+		var exp []string
+		for i, rv := range rc.results {
+			want, good := rpExpected(q, rv, rc, base)
+			if !good {
+				ok = false
+				exp = append(exp, fmt.Sprintf("result %d: model value not extractable", i))
+				continue
+			}
+			got := ""
+			pre := fmt.Sprintf("REPLAY-RESULT %d ", i)
+			for _, l := range keep {
+				if strings.HasPrefix(l, pre) {
+					got = strings.TrimSpace(strings.TrimPrefix(l, pre))
+				}
+			}
+			exp = append(exp, fmt.Sprintf("result %d: model predicts %s, real code returned %s", i, want, got))
+			if got != want {
+				ok = false
+			}
+		}
+		rf.Transcript += "\n" + strings.Join(exp, "\n")
+		rf.Reproduced = ok
+		if !ok {
+			rf.Note = "generic replay: the real function's results differ from the model's prediction on this input (counterexample not confirmed)"
+		} else {
+			rf.Note = "the real function returns exactly the results of the solver's counterexample, which violate the clause"
+		}
+	default:
+		rf.Note = "generic replay: the real function panicked or did not return on the model's input while the model predicts a normal return"
+	}
+}
+
+func smtInt(k int) string {
+	if k < 0 {
+		return fmt.Sprintf("(- %d)", -k)
+	}
+	return strconv.Itoa(k)
+}
+
+// parseValueList parses "((term value) (term value) ...)" in order.
+func parseValueList(out string, terms []string) map[string]string {
+	i := strings.Index(out, "((")
+	if i < 0 {
+		return nil
+	}
+	body := out[i+1:]
+	m := map[string]string{}
+	depth, start, k := 0, -1, 0
+	for j := 0; j < len(body); j++ {
+		switch body[j] {
+		case '(':
+			if depth == 0 {
+				start = j
+			}
+			depth++
+		case ')':
+			depth--
+			if depth == 0 && start >= 0 {
+				if k >= len(terms) {
+					return m
+				}
+				inner := strings.TrimSpace(body[start+1 : j])
+				// the value is the last top-level s-expression / atom of inner
+				m[terms[k]] = lastSexp(inner)
+				k++
+				start = -1
+			}
+			if depth < 0 {
+				return m
+			}
+		}
+	}
+	return m
+}
+
+func lastSexp(s string) string {
+	s = strings.TrimSpace(s)
+	if strings.HasSuffix(s, ")") {
+		depth := 0
+		for j := len(s) - 1; j >= 0; j-- {
+			switch s[j] {
+			case ')':
+				depth++
+			case '(':
+				depth--
+				if depth == 0 {
+					return s[j:]
+				}
+			}
+		}
+		return s
+	}
+	if j := strings.LastIndexAny(s, " \t\n"); j >= 0 {
+		return s[j+1:]
+	}
+	return s
+}
+
+var numRe = regexp.MustCompile(`^-?[0-9]+(\.[0-9]+)?$`)
+
+// smtRat evaluates a numeric model value: 5, 5.0, (- 5), (/ 1.0 3.0), (- (/ 1 3)).
+func smtRat(s string) (*big.Rat, bool) {
+	s = strings.TrimSpace(s)
+	if numRe.MatchString(s) {
+		r, ok := new(big.Rat).SetString(s)
+		return r, ok
+	}
+	if strings.HasPrefix(s, "(") && strings.HasSuffix(s, ")") {
+		inner := strings.TrimSpace(s[1 : len(s)-1])
+		switch {
+		case strings.HasPrefix(inner, "- "):
+			r, ok := smtRat(inner[2:])
+			if !ok {
+				return nil, false
+			}
+			return r.Neg(r), true
+		case strings.HasPrefix(inner, "/ "):
+			parts := splitTop(inner[2:])
+			if len(parts) != 2 {
+				return nil, false
+			}
+			a, ok1 := smtRat(parts[0])
+			b, ok2 := smtRat(parts[1])
+			if !ok1 || !ok2 || b.Sign() == 0 {
+				return nil, false
+			}
+			return a.Quo(a, b), true
+		}
+	}
+	return nil, false
+}
+
+func splitTop(s string) []string {
+	var out []string
+	depth, start := 0, -1
+	for j := 0; j <= len(s); j++ {
+		if j == len(s) || ((s[j] == ' ' || s[j] == '\t' || s[j] == '\n') && depth == 0) {
+			if start >= 0 {
+				out = append(out, s[start:j])
+				start = -1
+			}
+			continue
+		}
+		if start < 0 {
+			start = j
+		}
+		if s[j] == '(' {
+			depth++
+		} else if s[j] == ')' {
+			depth--
+		}
+	}
+	return out
+}
+
+func rpFloatOf(q *rpQuery, kTerm, vTerm string) (float64, bool) {
+	kr, ok := smtRat(q.vals[kTerm])
+	if !ok {
+		return 0, false
+	}
+	switch kr.Num().Int64() {
+	case 1:
+		return math.Inf(1), true
+	case 2:
+		return math.Inf(-1), true
+	case 3:
+		return math.NaN(), true
+	}
+	vr, ok := smtRat(q.vals[vTerm])
+	if !ok {
+		return 0, false
+	}
+	f, _ := vr.Float64()
+	return f, true
+}
+
+func goFloat(f float64) string {
+	switch {
+	case math.IsNaN(f):
+		return "math.NaN()"
+	case math.IsInf(f, 1):
+		return "math.Inf(1)"
+	case math.IsInf(f, -1):
+		return "math.Inf(-1)"
+	}
+	return "math.Float64frombits(0x" + strconv.FormatUint(math.Float64bits(f), 16) + ") /* " + strconv.FormatFloat(f, 'g', -1, 64) + " */"
+}
+
+// rpLiteral builds the Go expression for a parameter from the model.
+func rpLiteral(q *rpQuery, pv Value, rc *replayCtx, base string, _ bool) (string, bool) {
+	tn := types.TypeString(pv.T, func(p *types.Package) string {
+		if p.Path() == rc.fn.Pkg.Pkg.Path() {
+			return ""
+		}
+		return p.Name()
+	})
+	switch rpKindOf(pv.T) {
+	case rpInt:
+		r, ok := smtRat(q.vals[pv.S[0]])
+		if !ok || !r.IsInt() {
+			return "", false
+		}
+		return tn + "(" + r.Num().String() + ")", true
+	case rpBool:
+		return q.vals[pv.S[0]], q.vals[pv.S[0]] == "true" || q.vals[pv.S[0]] == "false"
+	case rpString:
+		return tn + "(\"\")", true
+	case rpFloat:
+		f, ok := rpFloatOf(q, pv.S[0], pv.S[1])
+		if !ok {
+			return "", false
+		}
+		return tn + "(" + goFloat(f) + ")", true
+	case rpSliceInt, rpSliceFloat:
+		lr, ok := smtRat(q.vals[pv.S[1]])
+		if !ok {
+			return "", false
+		}
+		ar, _ := smtRat(q.vals[pv.S[0]])
+		n := int(lr.Num().Int64())
+		if ar != nil && ar.Sign() == 0 && n == 0 {
+			return tn + "(nil)", true
+		}
+		et := pv.T.Underlying().(*types.Slice).Elem()
+		var els []string
+		for i := 0; i < n; i++ {
+			if rpKindOf(et) == rpInt {
+				t := fmt.Sprintf("(select (select %s %s) %d)", rc.init[elemComp(et, "")], pv.S[0], i)
+				v := "0"
+				if s, have := q.vals[t]; have {
+					r, ok := smtRat(s)
+					if !ok {
+						return "", false
+					}
+					v = r.Num().String()
+				}
+				els = append(els, v)
+			} else {
+				kt := fmt.Sprintf("(select (select %s %s) %d)", rc.init[elemComp(et, ".k")], pv.S[0], i)
+				vt := fmt.Sprintf("(select (select %s %s) %d)", rc.init[elemComp(et, ".v")], pv.S[0], i)
+				f := 0.0
+				if _, have := q.vals[vt]; have {
+					var ok bool
+					if _, hk := q.vals[kt]; !hk {
+						q.vals[kt] = "0"
+					}
+					f, ok = rpFloatOf(q, kt, vt)
+					if !ok {
+						return "", false
+					}
+				}
+				els = append(els, goFloat(f))
+			}
+		}
+		return tn + "{" + strings.Join(els, ", ") + "}", true
+	case rpMapIntInt, rpMapIntFloat:
+		mr, _ := smtRat(q.vals[pv.S[0]])
+		mt := pv.T.Underlying().(*types.Map)
+		dom := rc.init[mapComp(pv.T, "dom")]
+		var els []string
+		for k := rpKeyLo; k <= rpKeyHi; k++ {
+			dt := fmt.Sprintf("(select (select %s %s) %s)", dom, pv.S[0], smtInt(k))
+			if q.vals[dt] != "true" {
+				continue
+			}
+			if rpKindOf(mt.Elem()) == rpInt {
+				vt := fmt.Sprintf("(select (select %s %s) %s)", rc.init[mapComp(pv.T, "val")], pv.S[0], smtInt(k))
+				v := "0"
+				if s, have := q.vals[vt]; have {
+					r, ok := smtRat(s)
+					if !ok {
+						return "", false
+					}
+					v = r.Num().String()
+				}
+				els = append(els, fmt.Sprintf("%d: %s", k, v))
+			} else {
+				kt := fmt.Sprintf("(select (select %s %s) %s)", rc.init[mapComp(pv.T, "val.k")], pv.S[0], smtInt(k))
+				vt := fmt.Sprintf("(select (select %s %s) %s)", rc.init[mapComp(pv.T, "val.v")], pv.S[0], smtInt(k))
+				f := 0.0
+				if _, have := q.vals[vt]; have {
+					if _, hk := q.vals[kt]; !hk {
+						q.vals[kt] = "0"
+					}
+					var ok bool
+					f, ok = rpFloatOf(q, kt, vt)
+					if !ok {
+						return "", false
+					}
+				}
+				els = append(els, fmt.Sprintf("%d: %s", k, goFloat(f)))
+			}
+		}
+		if mr != nil && mr.Sign() == 0 && len(els) == 0 {
+			return tn + "(nil)", true
+		}
+		return tn + "{" + strings.Join(els, ", ") + "}", true
+	}
+	return "", false
+}
+
+// rpExpected renders what the model predicts for a result in the format the test prints.
+func rpExpected(q *rpQuery, rv Value, rc *replayCtx, base string) (string, bool) {
+	switch rpKindOf(rv.T) {
+	case rpInt:
+		r, ok := smtRat(q.vals[rv.S[0]])
+		if !ok || !r.IsInt() {
+			return "", false
+		}
+		return r.Num().String(), true
+	case rpBool:
+		return q.vals[rv.S[0]], true
+	case rpFloat:
+		f, ok := rpFloatOf(q, rv.S[0], rv.S[1])
+		if !ok {
+			return "", false
+		}
+		return strconv.FormatUint(math.Float64bits(f), 16), true
+	case rpSliceInt:
+		lr, ok := smtRat(q.vals[rv.S[1]])
+		if !ok {
+			return "", false
+		}
+		n := int(lr.Num().Int64())
+		et := rv.T.Underlying().(*types.Slice).Elem()
+		s := fmt.Sprintf("len=%d", n)
+		for i := 0; i < n; i++ {
+			term := rc.exitE[elemComp(et, "")]
+			if term == "" {
+				term = rc.init[elemComp(et, "")]
+			}
+			t := fmt.Sprintf("(select (select %s %s) %d)", term, rv.S[0], i)
+			r, ok := smtRat(q.vals[t])
+			if !ok {
+				return "", false
+			}
+			s += " " + r.Num().String()
+		}
+		return s, true
+	}
+	return "", false
+}
+
+var currentGhostNames = map[string]bool{}
+
+func containsWord(text, w string) bool {
+	if strings.HasSuffix(w, "(") {
+		return strings.Contains(text, w)
+	}
+	re := regexp.MustCompile(`(^|[^A-Za-z0-9_.])` + regexp.QuoteMeta(w) + `($|[^A-Za-z0-9_])`)
+	return re.MatchString(text)
 }
